@@ -19,6 +19,8 @@ type entity = rd.ErrorResponse
 
 type errorResponse = rd.ErrorResponse
 
+type emptyRecord = rd.EmptyRecord
+
 // the fields of an error response besides status and message (the root module's ErrorResponse has the
 // exception class only; the stack trace is the library's), as two classes: unset (0) or set (1)
 func setRest(e *errorResponse, rest int) {
